@@ -78,6 +78,7 @@ type VC struct {
 	unsup     []string
 	topRets   []retRec
 	safetyOff bool
+	callsHavoc bool
 	firedAnchors map[*Clause]bool
 	tablesDone   map[string]bool
 	topFn        *ssa.Function
@@ -151,7 +152,7 @@ func (vc *VC) oblige(st *State, kind, name, desc string, pos token.Position, goa
 	if n := vc.nameCount[name]; n > 1 {
 		name = fmt.Sprintf("%s#%d", name, n)
 	}
-	if vc.safetyOff && (kind == "nopanic" || kind == "requires") {
+	if (vc.safetyOff && kind == "nopanic") || (vc.callsHavoc && kind == "requires") {
 		// functions under a `safety_off` contract are checked for their contract clauses only
 		if kind == "nopanic" && goal != "false" {
 			vc.assume(st, goal)
